@@ -10,7 +10,12 @@
    Every operator takes the curve as its first argument, so one TLC run can range over several curves.
 
    Range: MulMod splits one factor into 8-bit pieces, so nothing leaves 0 .. 2^31-1 as long as
-   p < 2^22 (TLC integers are 32-bit signed; products p*p overflow for p >= 46341).              *)
+   p < 2^22 (TLC integers are 32-bit signed; products p*p overflow for p >= 46341).
+
+   Note for modules that EXTEND this one: do not name VARIABLES (or state-level definitions) like the
+   operator parameters used here (c, k, l, P, Q, p, u, v, e, x, y, j ...).  TLC then no longer treats
+   constant definitions that apply these operators as constants (InvTab below was rebuilt at every
+   reference and start-up took 30 s in the C02 generators until their variables were renamed vCurve ...). *)
 EXTENDS Naturals, Sequences, TLC
 
 (* ------------------------------------------------------------------ arithmetic mod p *)
@@ -84,8 +89,9 @@ Sub(c, P, Q) == Add(c, P, Neg(c, Q))
 RECURSIVE DblN(_, _, _)
 DblN(c, P, j) == IF j = 0 THEN P ELSE DblN(c, Dbl(c, P), j - 1)          \* 2^j * P
 
-\* k*P.  MulSlow is the definition (k-fold addition); Mul is double-and-add, which the curve modules
-\* make TLC compare with MulSlow on whole groups.  Both are defined for every natural k.
+\* k*P.  MulSlow is the definition (k-fold addition), MulTable below the same thing kept as a table; Mul is
+\* double-and-add, which TLC compares with the k-fold sums on whole groups (EcCurvesCount, EcGenPairs!MulAgrees /
+\* MulCorners, EcGenWalk!Ladder).  All are defined for every natural k.
 RECURSIVE MulSlow(_, _, _)
 MulSlow(c, k, P) == IF k = 0 THEN Inf ELSE Add(c, MulSlow(c, k - 1, P), P)
 RECURSIVE Mul(_, _, _)
